@@ -106,15 +106,16 @@ class HandTap:
     """the boundary between stage k and stage k+1: records the hand-over (as an output of the action of stage k that is
     running), calls the real put() of the next element, and records what that put did to the next element"""
 
-    def __init__(self, h, k, nxt, sample_next):
+    def __init__(self, h, k, nxt, sample_next, dst=None):
         self.h, self.k, self.nxt, self.sample_next = h, k, nxt, sample_next
+        self.dst = k + 1 if dst is None else dst
 
     def put(self, p):
         uid = getattr(p, "uid", None)
         self.h._emit(["out", "s%d" % self.k, uid, ec.pkt_fields(p), id(p) == id(self.h.packets.get(uid)), getattr(p, "color", None)])
         before = dict(p.perhop_time)
         self.nxt.put(p)
-        self.h._emit(["hand", self.k + 1, uid, stamp_diff(before, p), self.sample_next()])
+        self.h._emit(["hand", self.dst, uid, stamp_diff(before, p), self.sample_next()])
 
 
 class LastTap(ec.Tap):
@@ -124,6 +125,35 @@ class LastTap(ec.Tap):
         uid = getattr(p, "uid", None)
         self.got.append(p)
         self.h._emit(["out", self.tag, uid, ec.pkt_fields(p), id(p) == id(self.h.packets.get(uid)), getattr(p, "color", None)])
+
+
+class Router:
+    """what the drivers of a fan-in put into: the packet goes to the branch its flow is injected into"""
+
+    def __init__(self, branch_of, elems):
+        self.branch_of, self.elems = branch_of, elems
+
+    def put(self, p):
+        return self.elems[self.branch_of(p.flow_id)].put(p)
+
+
+def topo(case):
+    """the wiring of a composed case: entry(flow) -> stage a driver puts into; the Coq element term is built by _pipe_E"""
+    kind = case["kind"]
+    n = len(case["stages"])
+    if kind == "fanin":            # stages [A, B, C]: flow 0 is injected into A, the other flows into B; both feed C
+        return {"entry": (lambda f: 0 if f == 0 else 1), "sinks": [2]}
+    if kind == "fanout":           # stages [A, demux, B, C]
+        return {"entry": (lambda f: 0), "sinks": [2, 3]}
+    return {"entry": (lambda f: 0), "sinks": [n - 1]}
+
+
+def demux_route(st, flow):
+    """the decision of the real demux of a fan-out, as the documentation states it: index of the output or None (discarded)"""
+    if st["el"] == "flowdemux":
+        return flow if 0 <= flow < 2 else None
+    port = {int(f): q for f, q in st["fib"].items()}.get(flow)
+    return port if port in (0, 1) else None
 
 
 def _first_component(s):
@@ -142,14 +172,15 @@ def _first_component(s):
 
 class GenSinkPart:
     name = "gensink"
-    kinds = ["gen", "sink", "pipeline", "pipe"]
+    kinds = ["gen", "sink", "pipeline", "pipe", "fanin", "fanout"]
     serves = ["C08"]
     # the order matters: the element parts' action terms use unqualified constructor names (Port.PGet / SchedBase.PGet,
     # OForward of Port / Bucket / SchedBase, the record field `rate` of Bucket / SchedBase); GenSink last for gen/sink terms
     coq_imports = ["From ONL Require Import Base.Cmp Elem.Packet Elem.StoreQ Elem.HeapList Elem.WFQServer Elem.WFQ Elem.VC Elem.DRR "
                    "Elem.SchedBase Elem.SP Elem.RR Elem.WRR Elem.Bucket "
                    "Elem.TwoRate Elem.Wire Elem.Port Elem.Red Elem.Iface Elem.Compose Elem.AdaptWire Elem.AdaptPort Elem.AdaptBucket "
-                   "Elem.AdaptSched Elem.AdaptSrv Elem.AdaptDRR Elem.AdaptTwoRate Elem.AdaptRed Elem.GenSink."]
+                   "Elem.AdaptSched Elem.AdaptSrv Elem.AdaptDRR Elem.AdaptTwoRate Elem.AdaptRed Route.Demux Elem.ComposePar "
+                   "Elem.ComposeFan Elem.GenSink."]
     props_files = {"C08": ["Props/C08_GenSink.v", "Props/C08_Net.v", "Props/C08_Pipe.v"]}
     weight = 2
     nontrivial_rule = {"C08": "gen: scripted inter-arrival/size draws incl. zero gaps, finite and infinite finish, initial delays; "
@@ -179,9 +210,13 @@ class GenSinkPart:
             return self._gen_gen(rng)
         if r < 0.38:
             return self._gen_sink(rng)
-        if r < 0.6:
+        if r < 0.56:
             return self._gen_pipeline(rng)
-        return self._gen_pipe(rng)
+        if r < 0.8:
+            return self._gen_pipe(rng)
+        if r < 0.9:
+            return self._gen_fanin(rng)
+        return self._gen_fanout(rng)
 
     def _gen_gen(self, rng):
         n = rng.randint(1, 8)
@@ -229,6 +264,8 @@ class GenSinkPart:
 
     # ------------------------------------------------------------------------------------------
     def run_impl(self, case):
+        if case["kind"] in ("fanin", "fanout"):
+            return self._run_pipe(case)
         return getattr(self, "_run_" + case["kind"])(case)
 
     def _run_gen(self, case):
@@ -368,6 +405,87 @@ class GenSinkPart:
                 "sink_books": {str(k): v for k, v in books.items()}, "sent": [g.packets_send for g in gens]}
 
 
+    @staticmethod
+    def _gen_stage(rng, el, npk, one_wire, twin, eids):
+        """the configuration of one stage of kind el (appended to the list it returns)"""
+        stages = []
+        if el == "wire":
+            style = "const" if twin else rng.choice(["const", "rand", "zero"])
+            if style == "const":
+                ds = [rng.choice(PIPE_DELAYS[1:])] * npk
+            elif style == "zero":
+                ds = [Fraction(0)] * npk
+            else:
+                ds = [rng.choice(PIPE_DELAYS) for _ in range(npk)]
+            loss = rng.choice([None, None, Fraction(1, 4), Fraction(1, 2)]) if one_wire else None
+            stages.append({"el": "wire", "delays": [cf.qjson(d) for d in ds], "loss": None if loss is None else cf.qjson(loss),
+                           "uniforms": [cf.qjson(rng.choice(PIPE_UNIFORMS)) for _ in range(npk)]})
+        elif el in ("port", "port0"):
+            mode = rng.choice(["none", "bytes", "packets", "packets"])
+            ql, lb = None, rng.random() < 0.5
+            if mode == "bytes":
+                ql, lb = rng.choice([128, 256, 512, 1024]), True
+            elif mode == "packets":
+                ql, lb = rng.choice([1, 2, 2, 3, 4]), False
+            stages.append({"el": "port", "rate": 0 if el == "port0" else rng.choice([512, 1024, 4096]), "qlimit": ql,
+                           "limit_bytes": lb, "eid": eids.pop() if eids else None})
+        elif el == "red":
+            lb = rng.random() < 0.5
+            if lb:
+                unit = rng.choice(PIPE_SIZES)
+                mn = rng.choice([0, unit, 2 * unit, unit // 2])
+                mx = mn + rng.choice([1, 2, 4]) * unit
+                ql = mx + rng.choice([0, unit, 4 * unit])
+            else:
+                mn = rng.choice([0, 0, 1, 1, 2])
+                mx = mn + rng.choice([1, 2, 4])
+                ql = mx + rng.choice([0, 1, 2, 4])
+            stages.append({"el": "red", "rate": rng.choice([512, 1024, 4096]), "qlimit": ql, "limit_bytes": lb,
+                           "eid": eids.pop() if eids else None,
+                           "red": {"min": mn, "max": mx, "maxp": cf.qjson(rng.choice([Fraction(1, 2), Fraction(1, 4), Fraction(1), Fraction(3, 4)])),
+                                   "w": rng.choice([0, 0, 1, 1, 2, 3])},
+                           "uniforms": [cf.qjson(Fraction(rng.randint(0, 8), 8)) for _ in range(npk)]})
+        elif el == "tb":
+            stages.append({"el": "tb", "rate": rng.choice([512, 1024, 2048, 8192]), "bsize": rng.choice([0, 64, 128, 256, 1024]),
+                           "peak": rng.choice([None, None, 0, 4096, 16384])})
+        elif el == "trtb":
+            cir = rng.choice([512, 1024, 2048])
+            st = {"el": "trtb", "cir": cir, "cbs": rng.choice([64, 128, 256, 1024])}
+            if rng.random() < 0.7:
+                st.update({"pir": rng.choice([1, 2, 2, 4]) * cir, "pbs": rng.choice([64, 128, 256, 1024])})
+            else:
+                st.update({"pir": rng.choice([None, None, 0]), "pbs": rng.choice([None, 512])})
+            stages.append(st)
+        elif el in ("wfq", "vc"):
+            # flows 0-2 on one or two classes; WFQ weights equal powers of two so that every weight sum the code divides by
+            # is a power of two (exact floats); VC vticks dyadic
+            f2c = rng.choice([{0: 5, 1: 5, 2: 5}, {0: 4, 1: 7, 2: 7}, {0: 0, 1: 1, 2: 1}, {0: 3, 1: 3, 2: 6}])
+            cl = sorted(set(f2c.values()))
+            if el == "wfq":
+                wt = rng.choice([1, 2, 4])
+                classes = {str(c): wt for c in cl}
+            else:
+                classes = {str(c): cf.qjson(rng.choice([Fraction(1, 4), Fraction(1, 2), Fraction(1), Fraction(3, 2)])) for c in cl}
+            stages.append({"el": el, "rate": rng.choice([512, 1024, 4096]), "classes": classes,
+                           "f2c": {str(f): c for f, c in f2c.items()}})
+        elif el == "drr":
+            f2c = rng.choice([[[0, 0], [1, 1], [2, 2]], [[0, 3], [1, 3], [2, 4]], [[0, 1], [1, 0], [2, 0]]])
+            cl = []
+            for _, c in f2c:
+                if c not in cl:
+                    cl.append(c)
+            rng.shuffle(cl)
+            stages.append({"el": "drr", "rate": rng.choice([2048, 4096, 16384]), "weights": [[c, rng.choice([1, 1, 2, 3, 4])] for c in cl],
+                           "f2c": f2c})
+        else:
+            if el == "rr":
+                classes = [[f, 1] for f in PIPE_FLOWS]
+                rng.shuffle(classes)
+            else:
+                classes = [[f, rng.choice([1, 1, 2, 3])] for f in PIPE_FLOWS]
+            stages.append({"el": el, "rate": rng.choice([512, 1024, 4096]), "classes": classes})
+        return stages[0]
+
     # ---- kind 'pipe' ----------------------------------------------------------------------------------------
     def _gen_pipe(self, rng):
         n = rng.choice([2, 2, 3, 3])
@@ -389,84 +507,42 @@ class GenSinkPart:
         one_wire = els.count("wire") == 1
         eids = ["p1", "sw3", None]
         rng.shuffle(eids)
-        stages = []
-        for el in els:
-            if el == "wire":
-                style = "const" if twin else rng.choice(["const", "rand", "zero"])
-                if style == "const":
-                    ds = [rng.choice(PIPE_DELAYS[1:])] * npk
-                elif style == "zero":
-                    ds = [Fraction(0)] * npk
-                else:
-                    ds = [rng.choice(PIPE_DELAYS) for _ in range(npk)]
-                loss = rng.choice([None, None, Fraction(1, 4), Fraction(1, 2)]) if one_wire else None
-                stages.append({"el": "wire", "delays": [cf.qjson(d) for d in ds], "loss": None if loss is None else cf.qjson(loss),
-                               "uniforms": [cf.qjson(rng.choice(PIPE_UNIFORMS)) for _ in range(npk)]})
-            elif el in ("port", "port0"):
-                mode = rng.choice(["none", "bytes", "packets", "packets"])
-                ql, lb = None, rng.random() < 0.5
-                if mode == "bytes":
-                    ql, lb = rng.choice([128, 256, 512, 1024]), True
-                elif mode == "packets":
-                    ql, lb = rng.choice([1, 2, 2, 3, 4]), False
-                stages.append({"el": "port", "rate": 0 if el == "port0" else rng.choice([512, 1024, 4096]), "qlimit": ql,
-                               "limit_bytes": lb, "eid": eids.pop() if eids else None})
-            elif el == "red":
-                lb = rng.random() < 0.5
-                if lb:
-                    unit = rng.choice(PIPE_SIZES)
-                    mn = rng.choice([0, unit, 2 * unit, unit // 2])
-                    mx = mn + rng.choice([1, 2, 4]) * unit
-                    ql = mx + rng.choice([0, unit, 4 * unit])
-                else:
-                    mn = rng.choice([0, 0, 1, 1, 2])
-                    mx = mn + rng.choice([1, 2, 4])
-                    ql = mx + rng.choice([0, 1, 2, 4])
-                stages.append({"el": "red", "rate": rng.choice([512, 1024, 4096]), "qlimit": ql, "limit_bytes": lb,
-                               "eid": eids.pop() if eids else None,
-                               "red": {"min": mn, "max": mx, "maxp": cf.qjson(rng.choice([Fraction(1, 2), Fraction(1, 4), Fraction(1), Fraction(3, 4)])),
-                                       "w": rng.choice([0, 0, 1, 1, 2, 3])},
-                               "uniforms": [cf.qjson(Fraction(rng.randint(0, 8), 8)) for _ in range(npk)]})
-            elif el == "tb":
-                stages.append({"el": "tb", "rate": rng.choice([512, 1024, 2048, 8192]), "bsize": rng.choice([0, 64, 128, 256, 1024]),
-                               "peak": rng.choice([None, None, 0, 4096, 16384])})
-            elif el == "trtb":
-                cir = rng.choice([512, 1024, 2048])
-                st = {"el": "trtb", "cir": cir, "cbs": rng.choice([64, 128, 256, 1024])}
-                if rng.random() < 0.7:
-                    st.update({"pir": rng.choice([1, 2, 2, 4]) * cir, "pbs": rng.choice([64, 128, 256, 1024])})
-                else:
-                    st.update({"pir": rng.choice([None, None, 0]), "pbs": rng.choice([None, 512])})
-                stages.append(st)
-            elif el in ("wfq", "vc"):
-                # flows 0-2 on one or two classes; WFQ weights equal powers of two so that every weight sum the code divides by
-                # is a power of two (exact floats); VC vticks dyadic
-                f2c = rng.choice([{0: 5, 1: 5, 2: 5}, {0: 4, 1: 7, 2: 7}, {0: 0, 1: 1, 2: 1}, {0: 3, 1: 3, 2: 6}])
-                cl = sorted(set(f2c.values()))
-                if el == "wfq":
-                    wt = rng.choice([1, 2, 4])
-                    classes = {str(c): wt for c in cl}
-                else:
-                    classes = {str(c): cf.qjson(rng.choice([Fraction(1, 4), Fraction(1, 2), Fraction(1), Fraction(3, 2)])) for c in cl}
-                stages.append({"el": el, "rate": rng.choice([512, 1024, 4096]), "classes": classes,
-                               "f2c": {str(f): c for f, c in f2c.items()}})
-            elif el == "drr":
-                f2c = rng.choice([[[0, 0], [1, 1], [2, 2]], [[0, 3], [1, 3], [2, 4]], [[0, 1], [1, 0], [2, 0]]])
-                cl = []
-                for _, c in f2c:
-                    if c not in cl:
-                        cl.append(c)
-                rng.shuffle(cl)
-                stages.append({"el": "drr", "rate": rng.choice([2048, 4096, 16384]), "weights": [[c, rng.choice([1, 1, 2, 3, 4])] for c in cl],
-                               "f2c": f2c})
-            else:
-                if el == "rr":
-                    classes = [[f, 1] for f in PIPE_FLOWS]
-                    rng.shuffle(classes)
-                else:
-                    classes = [[f, rng.choice([1, 1, 2, 3])] for f in PIPE_FLOWS]
-                stages.append({"el": el, "rate": rng.choice([512, 1024, 4096]), "classes": classes})
+        stages = [self._gen_stage(rng, el, npk, one_wire, twin, eids) for el in els]
         return {"kind": "pipe", "stages": stages, "workload": w, "pre": rng.random() < 0.3, "rev": rng.random() < 0.5}
+
+    def _gen_fanin(self, rng):
+        """two upstream elements (flow 0 is injected into the first, flows 1 and 2 into the second) feeding ONE scheduler"""
+        w = ec.gen_workload(rng, flows=PIPE_FLOWS, n_max=8, sizes=PIPE_SIZES, burst_p=0.45)
+        npk = len(w["packets"])
+        ups = [rng.choice(["wire", "wire", "port", "port0", "tb", "trtb", "red", "sp", "wfq"]) for _ in range(2)]
+        if ups == ["red", "red"]:
+            ups[1] = "port"
+        down = rng.choice(PIPE_SCHEDS)
+        eids = ["p1", "sw3", None]
+        rng.shuffle(eids)
+        one_wire = ups.count("wire") == 1
+        stages = [self._gen_stage(rng, el, npk, one_wire, False, eids) for el in ups + [down]]
+        return {"kind": "fanin", "stages": stages, "workload": w, "pre": rng.random() < 0.3, "rev": rng.random() < 0.5}
+
+    def _gen_fanout(self, rng):
+        """one upstream element, a FlowDemux / FIBDemux with two outputs and no default, two downstream elements; packets of a
+        flow without a route are discarded by the demux (its documented rule)"""
+        w = ec.gen_workload(rng, flows=PIPE_FLOWS, n_max=8, sizes=PIPE_SIZES, burst_p=0.45)
+        npk = len(w["packets"])
+        els = [rng.choice(["wire", "port", "port0", "tb", "sp", "rr", "drr", "vc"])] + \
+              [rng.choice(["port", "port", "port0", "wire", "tb", "red", "wrr", "wfq"]) for _ in range(2)]
+        if els[1:] == ["red", "red"]:
+            els[2] = "port"
+        eids = ["p1", "sw3", None]
+        rng.shuffle(eids)
+        one_wire = els.count("wire") == 1
+        st = [self._gen_stage(rng, el, npk, one_wire, False, eids) for el in els]
+        if rng.random() < 0.6:
+            dm = {"el": "flowdemux"}                                  # flow 0 -> first output, flow 1 -> second, flow 2 -> nowhere
+        else:
+            dm = {"el": "fibdemux", "fib": rng.choice([{"0": 1, "1": 0, "2": 1}, {"0": 0, "1": 1}, {"0": 0, "1": 0, "2": 1}, {"1": 1, "2": 5}])}
+        return {"kind": "fanout", "stages": [st[0], dm, st[1], st[2]], "workload": w, "pre": rng.random() < 0.3,
+                "rev": rng.random() < 0.5}
 
     @staticmethod
     def _pipe_parts():
@@ -544,13 +620,33 @@ class GenSinkPart:
                 samplers = [None] * n
                 order = list(reversed(range(n))) if case.get("rev") else list(range(n))
                 for k in order:
+                    if stages[k]["el"] in ("flowdemux", "fibdemux"):
+                        samplers[k] = (lambda: None)
+                        continue
                     elems[k], samplers[k] = self._pipe_element(env, h, k, stages[k], unis, wmod, _loss_arg, num)
-                for k in range(n):
-                    if k + 1 < n:
-                        elems[k].out = HandTap(h, k, elems[k + 1], samplers[k + 1])
+                if case["kind"] == "fanin":
+                    elems[0].out = HandTap(h, 0, elems[2], samplers[2], dst=2)
+                    elems[1].out = HandTap(h, 1, elems[2], samplers[2], dst=2)
+                    elems[2].out = LastTap(h, "s2")
+                    h.attach(Router(topo(case)["entry"], elems))
+                elif case["kind"] == "fanout":
+                    from onl.netdev.demux import FlowDemux, FIBDemux
+                    outs = [HandTap(h, 1, elems[2], samplers[2], dst=2), HandTap(h, 1, elems[3], samplers[3], dst=3)]
+                    if stages[1]["el"] == "flowdemux":
+                        elems[1] = FlowDemux(outs, None)
                     else:
-                        elems[k].out = LastTap(h, "s%d" % k)
-                h.attach(elems[0])
+                        elems[1] = FIBDemux(outs=outs, fib={int(f): q for f, q in stages[1]["fib"].items()})
+                    elems[0].out = HandTap(h, 0, elems[1], samplers[1], dst=1)
+                    elems[2].out = LastTap(h, "s2")
+                    elems[3].out = LastTap(h, "s3")
+                    h.attach(elems[0])
+                else:
+                    for k in range(n):
+                        if k + 1 < n:
+                            elems[k].out = HandTap(h, k, elems[k + 1], samplers[k + 1])
+                        else:
+                            elems[k].out = LastTap(h, "s%d" % k)
+                    h.attach(elems[0])
                 h.after_action(lambda: [f() for f in samplers])
                 if not case.get("pre"):
                     for d in w["drivers"]:
@@ -573,6 +669,8 @@ class GenSinkPart:
             elif st["el"] == "drr":
                 final.append({"received": e.packets_received, "total": e.total_packets,
                               "quantum": [[c, ec.qs(e.quantum[c])] for c, _ in st["weights"] if c in e.quantum]})
+            elif st["el"] in ("flowdemux", "fibdemux"):
+                final.append({"received": e.packets_recevied})
             else:
                 final.append({"received": e.packets_received, "total": e.total_packets})
         return {"log": log, "raised": h.raised, "exhausted": h.exhausted, "final": final}
@@ -687,6 +785,7 @@ class GenSinkPart:
         import re
         stages = case["stages"]
         n = len(stages)
+        entry = topo(case)["entry"]
         sub = [[] for _ in range(n)]
         sched = []
         for e in obs["log"]:
@@ -697,7 +796,7 @@ class GenSinkPart:
                 sched.append(("adv", e[1]))
                 continue
             if kind == "put":
-                owner, outs = 0, e[2]
+                owner, outs = entry(case["workload"]["packets"][str(e[1])]["flow"]), e[2]
             elif kind == "step":
                 ks = set(re.findall(r"@(\d+)", e[1][1]))
                 if len(ks) != 1:
@@ -714,8 +813,6 @@ class GenSinkPart:
                     seen.append((j, o[2]))
                     if j == owner:
                         mine.append(o)
-                    elif j != n - 1 and not pending:
-                        return None, None, f"stage {j} forwarded inside an action of stage {owner} without a hand-over"
                 elif o[0] == "hand":
                     j = o[1]
                     st = [x for x in o[3]] if stages[j]["el"] in ("port", "red") else []
@@ -727,17 +824,17 @@ class GenSinkPart:
                     return None, None, f"unexpected output {o[:2]}"
             caused = []           # (stage, index into its sublog) of every put() made during this action, in order
             if kind == "put":
-                sub[0].append(["put", e[1], mine, samples[0]])
-                caused.append((0, len(sub[0]) - 1))
-                entry = ["put", e[1], seen]
+                sub[owner].append(["put", e[1], mine, samples[owner]])
+                caused.append((owner, len(sub[owner]) - 1))
+                ent = ["put", e[1], seen]
             else:
                 label = [e[1][0], re.sub(r"@\d+", "", e[1][1])]
                 sub[owner].append(["step", label, mine, samples[owner]])
-                entry = ["step", owner, len(sub[owner]) - 1, seen]
+                ent = ["step", owner, len(sub[owner]) - 1, seen]
             for j, pe in pending:
                 sub[j].append(pe)
                 caused.append((j, len(sub[j]) - 1))
-            sched.append(tuple(entry) + (caused,))
+            sched.append(tuple(ent) + (caused,))
         return sub, sched, None
 
     def _pipe_elem_term(self, case, k):
@@ -774,7 +871,11 @@ class GenSinkPart:
         n = len(stages)
         specs = case["workload"]["packets"]
         stage_terms, triples = [], []
+        kind = case["kind"]
         for k, st in enumerate(stages):
+            if st["el"] in ("flowdemux", "fibdemux"):
+                triples.append([])          # stateless: no process, no store; its decisions show as hand-overs
+                continue
             sc = self._pipe_subcase(case, st)
             part = parts[st["el"]]
             o = {"log": sub[k], "raised": None, "exhausted": obs["exhausted"]}
@@ -794,13 +895,25 @@ class GenSinkPart:
             triples.append(acts)
 
         def inj(k, a):
+            if kind == "fanin":           # fanin sel A B C = par sel A B >> C : labels (lab A + lab B) + lab C
+                return ["inl (inl (%s))", "inl (inr (%s))", "inr (%s)"][k] % a
+            if kind == "fanout":          # A >> (demux >> par B C) : labels lab A + (Empty_set + (lab B + lab C))
+                return {0: "inl (%s)", 2: "inr (inr (inl (%s)))", 3: "inr (inr (inr (%s)))"}[k] % a
             if k == n - 1:
                 return "inr (" * k + a + ")" * k
             return "inr (" * k + "inl (" + a + ")" + ")" * k
 
+        def boundary(j):
+            """what the composite shows when stage j hands a packet on: None = a delivery (EForward), else the index of EHand"""
+            if kind == "fanin":
+                return None if j == 2 else 1          # width (par A B) - 1, for both branches
+            if kind == "fanout":
+                return None if j >= 2 else j          # A -> demux is boundary 0, demux -> branch is boundary 1
+            return None if j == n - 1 else j
+
         def outs_term(seen):
-            return cf.lst([(f"EForward {ec.pkt_coq(specs[str(u)], u)}" if j == n - 1 else f"EHand {cf.nat(j)} {ec.pkt_coq(specs[str(u)], u)}")
-                           for (j, u) in seen])
+            return cf.lst([(f"EForward {ec.pkt_coq(specs[str(u)], u)}" if boundary(j) is None
+                            else f"EHand {cf.nat(boundary(j))} {ec.pkt_coq(specs[str(u)], u)}") for (j, u) in seen])
         import re
         comp = []
         for x in sched:
@@ -824,14 +937,29 @@ class GenSinkPart:
                 comp.append(f"(IStep ({inj(k, a)}), {outs_term(seen)})")
         return stage_terms, comp, None
 
+    def _pipe_E(self, case):
+        """the Coq term of the composed element"""
+        n = len(case["stages"])
+        T = lambda k: self._pipe_elem_term(case, k)                                        # noqa: E731
+        if case["kind"] == "fanin":
+            return f"(fanin (fun p => Z.eqb (flow p) 0) {T(0)} {T(1)} {T(2)})"
+        if case["kind"] == "fanout":
+            dm = case["stages"][1]
+            if dm["el"] == "flowdemux":
+                route = "(flowdemux true {| fd_nouts := 2%nat; fd_default := false |})"
+            else:
+                tbl = cf.lst([cf.pair(cf.z(int(f)), cf.z(q)) for f, q in sorted(dm["fib"].items(), key=lambda x: int(x[0]))])
+                route = f"(fibdemux true true {{| fb_fib := Some {tbl}; fb_outs := Some 2%nat; fb_ends := []; fb_default := false |}})"
+            return f"(fanout {route} {cf.q(0)} {T(0)} {T(2)} {T(3)})"
+        return f"(pipeline {T(0)} {cf.lst([T(k) for k in range(1, n)])})"
+
     def _pipe_agree(self, case, obs):
         if obs["raised"]:
             return "false"
         stage_terms, comp, err = self._pipe_terms(case, obs)
         if stage_terms is None:
             return f"false (* {err} *)"
-        n = len(case["stages"])
-        E = f"(pipeline {self._pipe_elem_term(case, 0)} {cf.lst([self._pipe_elem_term(case, k) for k in range(1, n)])})"
+        E = self._pipe_E(case)
         nl = ";" + chr(10) + "    "
         return " && ".join(stage_terms) + f" && pipe_agree {E} {cf.lst(comp, sep=nl)}"
 
@@ -845,8 +973,7 @@ class GenSinkPart:
         stage_terms, comp, err = self._pipe_terms(case, obs)
         if stage_terms is None:
             return None
-        n = len(case["stages"])
-        E = f"(pipeline {self._pipe_elem_term(case, 0)} {cf.lst([self._pipe_elem_term(case, k) for k in range(1, n)])})"
+        E = self._pipe_E(case)
         nl = ";" + chr(10) + "    "
         return f"({cf.lst(stage_terms)}, pipe_first_diff {E} {cf.lst(comp, sep=nl)})"
 
@@ -857,21 +984,31 @@ class GenSinkPart:
         n = len(stages)
         specs = case["workload"]["packets"]
         crossed = {k: [] for k in range(n)}        # what left stage k: (uid, fields, same object), in order
+        entered = {k: [] for k in range(n)}        # what was put into stage k (by a driver or by the stage before it), in order
+        went = {}                                  # demux: uid -> stage it was handed to
+        tp = topo(case)
         inj = []
         for e in obs["log"]:
             if e[0] == "put":
                 inj.append(e[1])
+                entered[tp["entry"](specs[str(e[1])]["flow"])].append(e[1])
             if e[0] in ("put", "step"):
+                src = None
                 for o in e[2]:
                     if o[0] == "out":
-                        crossed[int(o[1][1:])].append((o[2], o[3], o[4]))
+                        src = int(o[1][1:])
+                        crossed[src].append((o[2], o[3], o[4]))
+                    elif o[0] == "hand":
+                        entered[o[1]].append(o[2])
+                        if src is not None and o[1] != src and stages[src]["el"] in ("flowdemux", "fibdemux"):
+                            went[o[2]] = o[1]
             elif e[0] == "stray-out":
                 msgs.append("pipe-stray: a packet was handed on outside every action")
         if len(set(inj)) != len(inj):
             msgs.append("pipe-harness: a packet was injected twice")
-        ins = inj
         for k, st in enumerate(stages):
             name = f"stage {k} ({st['el']})"
+            ins = entered[k]
             outs = [u for (u, _, _) in crossed[k]]
             fin = obs["final"][k]
             for (u, fields, same) in crossed[k]:
@@ -889,6 +1026,14 @@ class GenSinkPart:
             dropped = 0
             if st["el"] in ("port", "red"):
                 dropped = fin["dropped"]
+            elif st["el"] in ("flowdemux", "fibdemux"):
+                # exactly one output per packet, the one the rule names; no route and no default: discarded
+                dropped = sum(1 for u in ins if demux_route(st, specs[str(u)]["flow"]) is None)
+                for u in ins:
+                    r = demux_route(st, specs[str(u)]["flow"])
+                    if (None if r is None else 2 + r) != went.get(u):
+                        msgs.append(f"pipe-demux-route: {name} handed packet {u} of flow {specs[str(u)]['flow']} to "
+                                    f"{went.get(u)}, its rule says {'nowhere' if r is None else 'output %d' % r}")
             elif st["el"] == "wire" and st["loss"] is not None:
                 loss = Fraction(st["loss"])
                 taken = fin["uniforms"]                      # one uniform draw per dequeued packet, in FIFO order
@@ -910,7 +1055,9 @@ class GenSinkPart:
                 b = [u for u in outs if str(u) in specs and specs[str(u)]["flow"] == f and u in ins]
                 if a != b and len(set(b)) == len(b):
                     msgs.append(f"pipe-flow-order: {name} forwarded flow {f} as {b}, it entered as {a}")
-            ins = outs
+        delivered = [u for k in tp["sinks"] for (u, _, _) in crossed[k]]
+        if len(set(delivered)) != len(delivered):
+            msgs.append("pipe-duplicated: a packet was delivered twice at the sinks")
         if not obs["exhausted"]:
             msgs.append("pipe-not-quiescent: event queue not empty after 20000 steps")
         return msgs
@@ -958,12 +1105,12 @@ class GenSinkPart:
                             f"k_first := {cf.q(b[5])}; k_last := {cf.q(b[6])}; k_packets := {cf.z(b[7])}; k_bytes := {cf.z(b[8])} |}})"
                             for b in obs["books"]])
             return f"books_eqb (sink_run {cfg} {ds}) {books}"
-        if k == "pipe":
+        if k in ("pipe", "fanin", "fanout"):
             return self._pipe_agree(case, obs)
         return None    # kind 'pipeline' (fan-out, DRR/WFQ, generators and sinks): monitor only
 
     def model_term(self, case):
-        if case["kind"] == "pipe":
+        if case["kind"] in ("pipe", "fanin", "fanout"):
             return self._pipe_model_term(case)
         return None
 
@@ -1021,7 +1168,7 @@ class GenSinkPart:
                 if b[7] != len(d) or b[8] != sum(x[0] for x in d) or [Fraction(x) for x in b[1]] != exp_w \
                         or [Fraction(x) for x in b[4]] != exp_a:
                     msgs.append(f"sink-books: key {key}: counts/bytes/waits/arrivals {b[7]},{b[8]},{b[1]},{b[4]} do not match the {len(d)} delivered packets")
-        elif k == "pipe":
+        elif k in ("pipe", "fanin", "fanout"):
             msgs += self._monitor_pipe(case, obs)
         else:
             msgs += self._monitor_pipeline(case, obs)
@@ -1105,8 +1252,9 @@ class GenSinkPart:
             return sum(len(e[2]) for e in obs["log"] if e[0] == "step") >= 3
         if k == "sink":
             return len(case["ds"]) >= 3 and len({d[0] for d in case["ds"]}) >= 2
-        if k == "pipe":
-            return len(case["workload"]["packets"]) >= 3 and any(o[0] == "out" and o[1] == "s%d" % (len(case["stages"]) - 1)
+        if k in ("pipe", "fanin", "fanout"):
+            last = ["s%d" % j for j in topo(case)["sinks"]]
+            return len(case["workload"]["packets"]) >= 3 and any(o[0] == "out" and o[1] in last
                                                                  for e in obs["log"] if e[0] in ("put", "step") for o in e[2])
         return len([x for x in obs["log"] if x[0] == "inject"]) >= 4
 
@@ -1120,6 +1268,12 @@ class GenSinkPart:
                 yield {**case, "sizes": case["sizes"][:-1], "arr": case["arr"][:-1]}
             if case["finish"] is not None:
                 yield {**case, "finish": None}
+        elif k in ("fanin", "fanout"):
+            for w in ec.shrink_workload(case["workload"]):
+                if w["packets"]:
+                    yield {**case, "workload": w}
+            if case.get("pre"):
+                yield {**case, "pre": False}
         elif k == "pipe":
             if len(case["stages"]) > 1:
                 for i in range(len(case["stages"])):
@@ -1151,6 +1305,9 @@ class GenSinkPart:
         if k == "pipeline":
             keys += ["pipeline:has-" + c for c in sorted(set(case["chain"]))]
             keys.append("pipeline:len=%d" % len(case["chain"]))
+        if k in ("fanin", "fanout"):
+            keys.append(k + ":" + ",".join(st["el"] for st in case["stages"]))
+            keys.append(k + ":packets=%d" % min(len(case["workload"]["packets"]), 8))
         if k == "pipe":
             keys.append("pipe:" + ">".join(st["el"] + ("0" if st["el"] == "port" and st["rate"] == 0 else "") for st in case["stages"]))
             keys += ["pipe:has-" + e for e in sorted({st["el"] for st in case["stages"]})]
